@@ -219,7 +219,7 @@ fn rec<T: Dig>(d: &Decoder, r: Result<T, decode::Error>) -> Rec {
             Rec { class: 0, pos: d.position() as u32, digest: h.0 }
         }
         // for errors the digest is the position the error itself reports (0 = none)
-        Err(e) => Rec { class: class_of(&e), pos: d.position() as u32, digest: e.position().map(|p| p as u64 + 1).unwrap_or(0) },
+        Err(e) => Rec { class: class_of(&e), pos: d.position() as u32, digest: e.position().map(|p| (p as u64).wrapping_add(1)).unwrap_or(0) },
     }
 }
 
@@ -974,9 +974,9 @@ fn decode_error_api() -> Vec<Rec> {
     ];
     let mut out = Vec::new();
     for c in ctors {
-        let variants: [decode::Error; 6] = [c(), c().at(7), c().with_message("ctx"), c().at(7).with_message("ctx"), c().with_message("ctx").at(9), c().at(7).at(0)];
+        let variants: [decode::Error; 9] = [c(), c().at(7), c().with_message("ctx"), c().at(7).with_message("ctx"), c().with_message("ctx").at(9), c().at(7).at(0), c().at(u32::MAX as usize), c().at((1usize << 32) + 5), c().at(usize::MAX)];
         for e in variants {
-            out.push(Rec { class: class_of(&e), pos: 0, digest: e.position().map(|p| p as u64 + 1).unwrap_or(0) });
+            out.push(Rec { class: class_of(&e), pos: 0, digest: e.position().map(|p| (p as u64).wrapping_add(1)).unwrap_or(0) });
         }
     }
     out
@@ -1140,6 +1140,51 @@ fn skipcheck(thorough: bool) {
                 violations += 1;
                 if violations <= 20 {
                     println!("SKIP-VIOLATION item={} input_hex={} result={} on a strict prefix", t.diag(), hex(&enc[..k]), show_skip(&r));
+                }
+            }
+        }
+    }
+    // deep nesting beyond the range of 8- and 16-bit counters: d openers, one leaf, the closers. Containers of one
+    // kind only, and indefinite ones around definite ones - never an indefinite container inside a definite one,
+    // so the build without alloc has to skip them too
+    for depth in [255usize, 256, 257, 65535, 65536, 65537] {
+        let shapes: [(&[&[u8]], &str); 7] = [(&[&[0x9f]], "[_"), (&[&[0xbf, 0x00]], "{_"), (&[&[0x9f], &[0xbf, 0x00]], "[_ {_"), (&[&[0x81]], "["), (&[&[0xa1, 0x00]], "{"), (&[&[0xc1]], "tag"), (&[&[0x81], &[0xc1], &[0xa1, 0x00]], "[ tag {")];
+        for (openers, name) in shapes {
+            let mut b: Vec<u8> = Vec::new();
+            let mut closers = 0usize;
+            for i in 0..depth {
+                let o = openers[i % openers.len()];
+                b.extend_from_slice(o);
+                if o[0] == 0x9f || o[0] == 0xbf {
+                    closers += 1;
+                }
+            }
+            b.push(0x00);
+            b.extend(std::iter::repeat(0xff).take(closers));
+            let item_len = b.len();
+            for suf in [&[][..], &[0xff][..]] {
+                let mut x = b.clone();
+                x.extend_from_slice(suf);
+                let (r, pos) = guarded_skip(&x);
+                evals += 1;
+                if matches!(r, Ok(())) && pos == item_len {
+                    ok_pos += 1;
+                } else {
+                    violations += 1;
+                    if violations <= 20 {
+                        println!("SKIP-VIOLATION item={}x{} input_len={} result={} position={} item_len={}", name, depth, x.len(), show_skip(&r), pos, item_len);
+                    }
+                }
+            }
+            if closers > 0 {
+                // one break short: the input ends inside the item
+                evals += 1;
+                let (r, _) = guarded_skip(&b[..item_len - 1]);
+                if !matches!(r, Err(Some(_))) {
+                    violations += 1;
+                    if violations <= 20 {
+                        println!("SKIP-VIOLATION item={}x{} result={} on the item without its last break", name, depth, show_skip(&r));
+                    }
                 }
             }
         }
